@@ -201,3 +201,8 @@ pub trait ProfibusPhy {
         self.receive_data(now, |buf| (0, buf.len()))
     }
 }
+
+#[cfg(kani)]
+mod verif {
+    include!(concat!(env!("PROFIRUST_VERIF_HARNESS"), "/phy_mod.rs"));
+}
